@@ -69,6 +69,37 @@ pub fn run_command_line(sh: &mut Shell, line: &str, tty: bool, capture: bool) ->
 pub fn run_exp_if(sh: &mut Shell, pair_if: VxPair, args: &Vec<String>, in_loop: bool, capture: bool) -> (r: (Vec<CommandResult>, bool, bool)) { unimplemented!() }
 #[verifier::external_body]
 pub fn run_exp_for(sh: &mut Shell, pair_for: VxPair, args: &Vec<String>, capture: bool) -> (r: Vec<CommandResult>) { unimplemented!() }
+
+// ---- run_exp_if: the branches are tried in the order they are written, up to and including the first whose test passes ----
+// per branch tried: (its test passed, it met `continue`, it met `break`)
+pub ghost struct IfLog { pub tried: Seq<(bool, bool, bool)> }
+#[verifier::external_body]
+pub proof fn new_iflog() -> (tracked r: IfLog) ensures r.tried.len() == 0 { unimplemented!() }
+#[verifier::external_body]
+pub proof fn note_branch(tracked il: &mut IfLog, passed: bool, cont: bool, brk: bool)
+    ensures final(il).tried == old(il).tried.push((passed, cont, brk))
+{ unimplemented!() }
+pub open spec fn none_passed(il: IfLog) -> bool { forall|k: int| 0 <= k < il.tried.len() ==> !(#[trigger] il.tried[k]).0 }
+pub open spec fn only_the_last_passed(il: IfLog) -> bool { forall|k: int| 0 <= k < il.tried.len() - 1 ==> !(#[trigger] il.tried[k]).0 }
+
+// ---- run_exp_for: one round per word of the list, in order, with the variable set to that word ----
+pub ghost struct ForLog { pub rounds: Seq<(Seq<char>, Seq<char>)> }
+#[verifier::external_body]
+pub proof fn new_forlog() -> (tracked r: ForLog) ensures r.rounds.len() == 0 { unimplemented!() }
+pub open spec fn rounds_of(name: Seq<char>, words: Seq<String>, n: int) -> Seq<(Seq<char>, Seq<char>)> { Seq::new(n as nat, |k: int| (name, words[k]@)) }
+impl Shell {
+    // Shell::set_env (contract in U-ENV): here only the record of which name got which value, in order
+    #[verifier::external_body]
+    pub fn set_env(&mut self, name: &str, value: &str, Tracked(fl): Tracked<&mut ForLog>)
+        ensures final(fl).rounds == old(fl).rounds.push((name@, value@)), *final(self) == *old(self)
+    { unimplemented!() }
+}
+#[verifier::external_body]
+pub fn get_for_var_name(pair_head: VxPair) -> (r: String) { unimplemented!() }
+#[verifier::external_body]
+pub fn get_for_result_list(sh: &mut Shell, pair_head: VxPair, args: &[String]) -> (r: Vec<String>) { unimplemented!() }
+#[verifier::external_body]
+pub fn vx_args_slice(args: &Vec<String>) -> (r: &[String]) ensures r@ == args@ { args.as_slice() }
 #[verifier::external_body]
 pub fn run_exp_test_br(sh: &mut Shell, pair_br: VxPair, args: &Vec<String>, in_loop: bool, capture: bool) -> (r: (Vec<CommandResult>, bool, bool, bool)) { unimplemented!() }
 #[verifier::external_body]
@@ -90,6 +121,8 @@ pub fn vx_unreachable_by_grammar() { }
 //@FN run_exp_while
 //@FN run_exp
 //@FN run_exp_test_br_real
+//@FN run_exp_if_real
+//@FN run_exp_for_real
 //@FN run_lines
 ''' + common.TAIL
 
@@ -179,12 +212,51 @@ test_br = Fn(S, 'run_exp_test_br', rename='run_exp_test_br_real', ret='r',
            'before-text-all:test_pass = true;': 'note_test(tl, true);',
            'before-call:run_exp': 'RAW: let tracked mut lg2 = new_log();'},
 )
-UNIT = Unit('U-SCRIPT', TEMPLATE, fns=[stopped_by_error, run_exp_while, run_exp, test_br, run_lines],
+
+exp_if = Fn(S, 'run_exp_if', rename='run_exp_if_real', ret='r', pre_rewrites=RW,
+    add_params='Tracked(il): Tracked<&mut IfLog>',
+    requires=[('C15.pre.if.fresh_log', 'old(il).tried.len() == 0')],
+    let_types={'cr_list': 'Vec<CommandResult>'},
+    loop_kinds={0: 'value', (0, 'clone'): 'vx_clone_pair(&{})'},
+    ensures=[
+        ('C15.if.branches_are_tried_in_order_up_to_the_first_whose_test_passes',
+         'only_the_last_passed(*final(il)) && final(il).tried.len() <= pair_children(pair_if).len()'
+         ' && (final(il).tried.len() == pair_children(pair_if).len() || (final(il).tried.len() > 0 && final(il).tried.last().0))'),
+        ('C15.if.continue_and_break_are_those_of_the_last_branch_tried',
+         'final(il).tried.len() > 0 ==> (r.1 == final(il).tried.last().1 && r.2 == final(il).tried.last().2)'),
+    ],
+    loops={0: Loop(invariant_except_break=[('C15.inv.if.tried', 'il.tried.len() == __i0 && none_passed(*il)')],
+                   invariant=[('C15.inv.if.flags', 'il.tried.len() <= __v0@.len() && __v0@ == pair_children(pair_if) && (il.tried.len() > 0 ==> (met_continue == il.tried.last().1 && met_break == il.tried.last().2))')],
+                   ensures=[('C15.if.loop_left_at_the_end_or_at_the_first_branch_that_passed',
+                             'only_the_last_passed(*il) && (il.tried.len() == __v0@.len() || (il.tried.len() > 0 && il.tried.last().0))')])},
+    hints={'after-call:run_exp_test_br': 'note_branch(il, passed, _cont, _brk);'},
+)
+
+exp_for = Fn(S, 'run_exp_for', rename='run_exp_for_real', ret='r',
+    pre_rewrites=RW + [Rw('get_for_result_list(sh, pair.clone(), args)', 'get_for_result_list(sh, pair.clone(), vx_args_slice(args))', required=False, rule='R12', why='&Vec<String> to &[String] (deref coercion) through a shim')],
+    ghost_args={'run_exp': 'Tracked(&mut lg2)', 'set_env': 'Tracked(&mut fl)'},
+    requires=[('C05.pre.for.args', 'args@.len() >= 1')],
+    let_types={'cr_list': 'Vec<CommandResult>'},
+    loop_kinds={0: 'value', (0, 'clone'): 'vx_clone_pair(&{})'},
+    ensures=[],
+    loops={0: Loop(invariant=[('C05.inv.for.args', 'args@.len() >= 1')]),
+           1: Loop(invariant=[('C05.inv.for.args_inner', 'args@.len() >= 1')],
+                   invariant_except_break=[('C15.inv.for.rounds_so_far', 'fl.rounds == rounds_of(var_name@, result_list@, __i1 as int) && lgf.started == __i1 && no_stop_so_far(lgf)')],
+                   ensures=[('C15.for.loop_left_with_a_prefix_of_the_rounds', 'exists|n: int| 0 <= n <= result_list@.len() && fl.rounds == rounds_of(var_name@, result_list@, n)'),
+                            ('C15.for.no_round_after_a_failing_command_under_set_e', 'nothing_after_stop(lgf)')])},
+    hints={'after-text:if rule == Rule::EXP_BODY {': 'RAW: let tracked mut fl = new_forlog(); let tracked mut lgf = new_log();',
+           'loop-1-body-entry': 'note_start(&mut lgf);',
+           'before-call:run_exp': 'RAW: let tracked mut lg2 = new_log();',
+           'after-call:append': 'note_check(&mut lgf, stop_spec(cr_list@, *sh)); assert(fl.rounds =~= rounds_of(var_name@, result_list@, __i1 as int));',
+           'loop-1-exit': 'LABEL:C10+C15.for.one_round_per_word_in_order_with_the_variable_set_to_it: assert(exists|n: int| 0 <= n <= result_list@.len() && fl.rounds == rounds_of(var_name@, result_list@, n));'
+                          ' ;;; LABEL:C15.for.nothing_runs_after_a_failing_command_under_set_e: assert(nothing_after_stop(lgf));'},
+)
+UNIT = Unit('U-SCRIPT', TEMPLATE, fns=[stopped_by_error, run_exp_while, run_exp, test_br, exp_if, exp_for, run_lines],
             types=[TypeItem('src/types.rs', 'struct', 'CommandResult')], props=('C15', 'C05'))
 TRUSTED = common.TRUSTED_STR + [
     'the pest parse tree is opaque: the text, rule and children of a node are uninterpreted (the grammar locust.pest is outside the verifier); '
     'which statements a script text consists of is exercised by the bounded script cases only',
-    'run_command_line, run_exp_if, run_exp_for, run_exp_test_br, expand_args are external here: any results, any effect on the shell '
+    'run_command_line, expand_args, get_for_var_name, get_for_result_list are external here (and run_exp_if / run_exp_for / run_exp_test_br at their call sites: callers see no contract of them, they are verified on their own): any results, any effect on the shell '
     '(run_command_line / expand_args have their own contracts in U-LIST / U-ARGS)',
     'args[0] is the script or function name (callers: run_script, try_run_func, source): assumed as precondition args.len() >= 1',
     'run_exp_while may run forever (a script loop): termination is not claimed for it',
